@@ -130,6 +130,12 @@ def run_C01(run):
         run.gen_and_replay("MC_Paths", consts(BASE_PATHS, MaxNodes=3, MaxSteps=3, CatSteps=0,
                                               TestKinds={"any", "node", "text"}, TestNames={"a"}),
                            name="paths-alldocs-3step", kind="sel-set")
+    # (3b) three steps over the axes that the builder rewrites together (descendant shortcuts, SmartDesc)
+    run.gen_and_replay("MC_Paths", consts(BASE_PATHS, MaxNodes=4 if q else 5, MaxSteps=3, CatSteps=3, AttrNames=set(), WithComment=False,
+                                          StepAxes={"descendant", "descendant-or-self", "self", "child"} if q else
+                                          {"descendant", "descendant-or-self", "self", "child", "parent", "ancestor"},
+                                          TestKinds={"any"} if q else {"any", "node"}, TestNames={"a"}),
+                       name="paths-desc-3step", kind="sel-set")
     # (4) Flow B: seeded documents up to 20 nodes, paths up to 4 steps, recorded
     #     from the engine and validated by TLC against the denotation
     tr = run.drive("paths", 1500 if q else 20000, extra=["-nodes", "20", "-steps", "4"])
@@ -155,6 +161,9 @@ def run_C02(run):
                        name="preds-paren", kind="sel-set")
     run.gen_and_replay("MC_Expr", consts(BASE_EXPR, Family="C02paren2", MaxNodes=4 if q else 5, UseCat=True),
                        name="preds-paren-several", kind="sel-set")
+    # (5) and/or over multi-step operands with function-valued / positional nested predicates (merge rewrite)
+    run.gen_and_replay("MC_Expr", consts(BASE_EXPR, Family="C02merge", MaxNodes=4 if q else 5, UseCat=True),
+                       name="preds-merge-operands", kind="sel-set")
 
 
 def run_C03(run):
@@ -307,6 +316,8 @@ def run_C15(run):
     base = consts(BASE_EXPR, UseCat=False, UseVal=True)
     run.gen_and_replay("MC_Expr", consts(base, Family="C15fn" if q else "C15fnwrap"), name="typed-functions", kind="noerr")
     run.gen_and_replay("MC_Expr", consts(base, Family="C15ops"), name="typed-operators-axes-vars", kind="noerr")
+    # argument VALUES that index into strings and sequences (beyond the end, negative, NaN, infinite, empty)
+    run.gen_and_replay("MC_Expr", consts(base, Family="C15edges"), name="edge-values", kind="noerr")
 
 
 ALL_OPS = {"or", "and", "=", "!=", "<", "<=", ">", ">=", "+", "-", "*", "div", "mod", "|", "/", "//"}
@@ -383,31 +394,27 @@ def run_C06(run):
     run.stages.append({"stage": "stack-skeleton", "functions": rep["nfuncs"], "call_edges": rep["nedges"], "guarded": rep["guarded"],
                        "unguarded_cycle_functions": sorted(cyc)})
     if cyc:
-        covered = set()
-        for pat, fs in info["cycles"].items():
-            if set(fs) & cyc:
-                covered |= set(fs)
-        if not cyc <= covered | {"parseRelativeLocationPath"}:
-            raise ToolingError("TLC found an unguarded recursive cycle through %s for which the harness has no pump pattern: "
-                               "extend pumpPatterns/pumpCycles in harness/cmd/xvh/total.go" % sorted(cyc - covered))
-        run.notes.append("XStack: unguarded recursive cycle through %s (a lead; the verdict comes from pumping it on the real code)" % sorted(cyc))
+        run.notes.append("XStack: unguarded recursive cycle through %s (a lead; the verdict comes from pumping on the real code)" % sorted(cyc))
     # (2) pump every nesting pattern on the real code, each run in its own process (a stack overflow kills it)
     depths = [100, 10000, 1000000] if q else [100, 10000, 100000, 1000000, 10000000]
     npump = 0
     for pat in info["patterns"]:
         for d in depths:
             try:
-                p = subprocess.run([run.xvh, "deep", "-pattern", pat, "-depth", str(d)], capture_output=True, text=True, timeout=120)
+                p = subprocess.run([run.xvh, "deep", "-pattern", pat, "-depth", str(d)], capture_output=True, text=True, timeout=60)
                 out = p.stdout.strip().splitlines()[-1] if p.stdout.strip() else ""
                 bad = None if (p.returncode == 0 and out in ("ok", "err")) else ("crash (exit %d): %s" % (p.returncode, (out or p.stderr[:300])))
             except subprocess.TimeoutExpired:
-                bad = "no result within 120 s"
+                bad = "no result within 60 s"
             npump += 1
             if bad:
                 run.mismatches.append({"stage": "pump", "flow": "B", "kind": "deep", "expr": "%s at depth %d" % (pat, d), "ctx": 0,
                                        "fail": "crash-or-hang", "via": "Compile (subprocess)", "want": "expression or error",
                                        "got": {"outcome": bad}, "case": {"pattern": pat, "depth": d}})
                 break   # deeper instances of the same pattern add nothing
+    if cyc and not any(m.get("stage") == "pump" for m in run.mismatches):
+        raise ToolingError("TLC found an unguarded recursive cycle through %s but no nesting pattern of the harness crashes the real "
+                           "code: extend pumpPatterns in harness/cmd/xvh/total.go so that the cycle is pumped" % sorted(cyc))
     run.evaluations += npump
     run.traces += npump
     run.stages.append({"stage": "pump", "patterns": len(info["patterns"]), "depths": depths, "runs": npump})
